@@ -499,6 +499,8 @@ type FuncContract struct {
 	NilChecks bool
 	Lets      []letDef
 	Afters    []afterDef
+	Proves    []Clause // postconditions verified against the body even in an assumed contract
+	PerSite   bool // check every postcondition at each return site separately (smaller queries)
 	ReplayExpr string // Go boolean expression over p_<param> / r_<result>: the postcondition, for replaying models
 	ReplayHelp string // helper file under /verif/replay appended to the generated test
 	Atomic     bool
@@ -560,7 +562,7 @@ var clauseKeywords = map[string]bool{
 	"property": true, "spec": true, "axiom": true, "lemma": true, "func": true, "requires": true, "ensures": true,
 	"modifies": true, "pure": true, "inline": true, "assume": true, "loop": true, "invariant": true, "decreases": true,
 	"unroll": true, "logical": true, "sort": true, "noreturn": true, "nilable": true, "trusted": true, "alloc_bound": true,
-	"const": true, "stablefield": true, "opaque": true, "nilchecks": true, "let": true, "after": true, "ghost": true, "ghostfield": true, "macro": true, "mapinv": true, "replay": true, "replayhelp": true, "atomic": true, "defines": true, "objinv": true,
+	"const": true, "stablefield": true, "opaque": true, "nilchecks": true, "let": true, "after": true, "ghost": true, "ghostfield": true, "macro": true, "mapinv": true, "replay": true, "replayhelp": true, "atomic": true, "persite": true, "proves": true, "defines": true, "objinv": true,
 }
 
 type rawClause struct {
@@ -777,7 +779,7 @@ func (db *ContractDB) LoadFile(path string) error {
 				return fmt.Errorf("%s:%d: clause %q outside a func", path, rc.line, rc.kw)
 			}
 			switch rc.kw {
-			case "requires", "ensures", "invariant", "decreases", "defines":
+			case "requires", "ensures", "proves", "invariant", "decreases", "defines":
 				cl, err := mkClause(rc)
 				if err != nil {
 					return err
@@ -787,6 +789,9 @@ func (db *ContractDB) LoadFile(path string) error {
 					cur.Requires = append(cur.Requires, cl)
 				case "ensures":
 					cur.Ensures = append(cur.Ensures, cl)
+				case "proves":
+					// a postcondition that is verified against the body even when the rest of the contract is assumed
+					cur.Proves = append(cur.Proves, cl)
 				case "defines":
 					cur.Defines = append(cur.Defines, cl)
 				case "invariant":
@@ -856,6 +861,8 @@ func (db *ContractDB) LoadFile(path string) error {
 				cur.ReplayExpr = strings.TrimSpace(rc.text)
 			case "replayhelp":
 				cur.ReplayHelp = strings.TrimSpace(rc.text)
+			case "persite":
+				cur.PerSite = true
 			case "atomic":
 				cur.Atomic = true
 			case "pure":
